@@ -8,6 +8,8 @@ META = {
                    "destroy refuses non-empty tables before freeing anything, allocator alloc/free symmetry.",
     "not_decided": "single ownership and absence of later accesses as properties of schedules",
 }
+
+META["explanation"] += " " + 'Also: destroy tears down synchronously only for tables without AUTO_RESIZE worker (dominating guard with no further condition), deferred teardown frees the table last, emptiness walks classify every loaded next word, the EAGAIN fallback of the partitioned shrink covers the rest of the level.'
 RULES = [
     ("C07.del", lambda c, r: lfht.rule_del(c, r, "C07.del")),
     ("C07.bits", lambda c, r: lfht.rule_bits(c, r, "C07.bits")),
